@@ -10,6 +10,7 @@ import Driver.Typing
 import Driver.Grpc
 import Driver.Spec
 import Driver.HeapD
+import Driver.PluginSchema
 /- line protocol: one request per line on stdin, one reply per line on stdout -/
 open Drv
 
@@ -61,6 +62,9 @@ def step (st : AllSt) (line : String) : AllSt × String :=
   | some r => (st, r)
   | none =>
   match handleHeapD toks with
+  | some r => (st, r)
+  | none =>
+  match handlePluginSchema toks with
   | some r => (st, r)
   | none => (st, "bad-op")
 
